@@ -7,6 +7,52 @@ package checker
 // that the elkvc verification-condition generator reads.
 
 /*@
+// ---- induction hypothesis ---------------------------------------------------------------------
+// The expression, statement, pattern and type checkers dispatch over some 150 node kinds and
+// call each other recursively.  That a checker method gives back the scoped context it found
+// (mode, self type, file name, compiler, constant and method scopes, phase) is proved per
+// method under the hypothesis that these dispatchers do; the hypothesis is an ASSUMPTION
+// (listed in the evidence): it is the induction hypothesis of an induction whose steps are
+// the contracts below and in verif_contracts_ctx.go, and it is discharged only for the
+// methods that are under contract.
+spec fn ctxKept(c *Checker, mode0 mode, self0 types.Type, file0 string, comp0 compiler.Compiler, cs0 []constantScope, ms0 []methodScope, ph0 phase) bool = c.mode == mode0 && c.selfType == self0 && same(c.Filename, file0) && c.compiler == comp0 && c.constantScopes == cs0 && len(c.constantScopes) == len(cs0) && c.methodScopes == ms0 && len(c.methodScopes) == len(ms0) && c.phase == ph0
+
+func (*Checker).checkExpression
+  trusted
+  ensures ctxKept(c, old(c.mode), old(c.selfType), old(c.Filename), old(c.compiler), old(c.constantScopes), old(c.methodScopes), old(c.phase))
+
+func (*Checker).checkExpressionWithTailPosition
+  trusted
+  ensures ctxKept(c, old(c.mode), old(c.selfType), old(c.Filename), old(c.compiler), old(c.constantScopes), old(c.methodScopes), old(c.phase))
+
+func (*Checker).checkExpressionWithType
+  trusted
+  ensures ctxKept(c, old(c.mode), old(c.selfType), old(c.Filename), old(c.compiler), old(c.constantScopes), old(c.methodScopes), old(c.phase))
+
+func (*Checker).checkExpressions
+  trusted
+  ensures ctxKept(c, old(c.mode), old(c.selfType), old(c.Filename), old(c.compiler), old(c.constantScopes), old(c.methodScopes), old(c.phase))
+
+func (*Checker).checkStatements
+  trusted
+  ensures ctxKept(c, old(c.mode), old(c.selfType), old(c.Filename), old(c.compiler), old(c.constantScopes), old(c.methodScopes), old(c.phase))
+
+func (*Checker).checkStatement
+  trusted
+  ensures ctxKept(c, old(c.mode), old(c.selfType), old(c.Filename), old(c.compiler), old(c.constantScopes), old(c.methodScopes), old(c.phase))
+
+func (*Checker).checkPattern
+  trusted
+  ensures ctxKept(c, old(c.mode), old(c.selfType), old(c.Filename), old(c.compiler), old(c.constantScopes), old(c.methodScopes), old(c.phase))
+
+func (*Checker).checkTypeNode
+  trusted
+  ensures ctxKept(c, old(c.mode), old(c.selfType), old(c.Filename), old(c.compiler), old(c.constantScopes), old(c.methodScopes), old(c.phase))
+
+func (*Checker).checkComplexConstantType
+  trusted
+  ensures ctxKept(c, old(c.mode), old(c.selfType), old(c.Filename), old(c.compiler), old(c.constantScopes), old(c.methodScopes), old(c.phase))
+
 // ---- checking a method or closure body leaves the enclosing context alone -------------------
 // checkMethod is entered recursively for every closure literal inside a body.  What the
 // checker knows about the ENCLOSING method while it checks that body — the declared return
